@@ -22,6 +22,7 @@ import (
 	"encoding/json"
 	"errors"
 	"fmt"
+	"hash/fnv"
 	"io"
 	"net"
 	"runtime"
@@ -64,6 +65,7 @@ type mcfg struct {
 	Nodes int    `json:"nodes"`
 	Tg    string `json:"tg,omitempty"`    // mapquota: the n activated codes were issued by the "same" target client or by n "distinct" ones
 	Slack int    `json:"slack,omitempty"` // free slots at the start (occupancy = limit - slack); 0 = 1
+	Var   string `json:"var,omitempty"`   // which code the model describes: none | asis | a faulty variant
 	Key   string `json:"key,omitempty"`   // model only: client id the modelled code keys its quota mutex on ("owner" | "issuer")
 }
 
@@ -92,10 +94,18 @@ func (b *behaviour) tag() string {
 	if b.Cfg.Slack > 1 {
 		t = append(t, fmt.Sprintf("slack=%d", b.Cfg.Slack)) // occupancy limit-slack at the start, requests arriving at different times
 	}
+	seen := map[string]bool{}
 	for _, st := range b.Steps {
-		if st.A == "ReRelease" {
+		switch {
+		case st.A == "ReRelease" && !seen["reclose"]:
+			seen["reclose"] = true
 			t = append(t, "reclose") // history with a removal of an id that is not registered
-			break
+		case st.A == "LList" && !seen["listed"]:
+			seen["listed"] = true
+			t = append(t, "listed") // a list request runs next to the creates
+		case st.A == "PeerClose" && !seen["peerclose"]:
+			seen["peerclose"] = true
+			t = append(t, "peerclose") // a peer notification closes a tunnel between its registration and its start
 		}
 	}
 	return strings.Join(t, ":")
@@ -115,7 +125,7 @@ func (b *behaviour) label() string {
 			return "maplive"
 		}
 		for _, st := range b.Steps {
-			if st.A == "GoLive" || st.A == "Detach" {
+			if st.A == "GoLive" || st.A == "Detach" || st.A == "Register" {
 				return "maplive"
 			}
 		}
@@ -441,6 +451,7 @@ var (
 	closeGate      = "stream.Close"
 	hookPoint      = "mapping.quota.checked"
 	prepareGat     = "adapter.Prepare"
+	regGate        = "tunnel.registered"
 )
 
 type fconn struct {
@@ -454,12 +465,16 @@ type fconn struct {
 	readOnce sync.Once
 	relOnce  sync.Once
 	prepared atomic.Bool
-	goLive   atomic.Bool  // leave PrepareConnection successfully: the connection gets a tunnel and stays open
+	goLive   atomic.Bool   // leave PrepareConnection successfully: the connection gets a tunnel and stays open
+	atReg    atomic.Bool   // its handler reached the point "tunnel registered, not started yet"
+	regLeft  chan struct{} // closed when the handler goes on from there
+	regOnce  sync.Once
+	tunnelID atomic.Value // string: id of its tunnel (known once registered)
 	touched  atomic.Int32 // reads/writes by the handler
 }
 
 func (r *mapRig) newConn(p int) *fconn {
-	c := &fconn{r: r, p: p, done: make(chan struct{}), reading: make(chan struct{})}
+	c := &fconn{r: r, p: p, done: make(chan struct{}), reading: make(chan struct{}), regLeft: make(chan struct{})}
 	if p > 0 {
 		c.name = pname(p)
 	}
@@ -518,6 +533,7 @@ type mapRig struct {
 	stop    chan struct{}
 	stopOne sync.Once
 	feeding atomic.Pointer[string]
+	cur     atomic.Pointer[fconn] // scheduled mode: the connection whose handler is being stepped
 	inPrep  atomic.Int32
 	holders []*fconn
 	cmu     sync.Mutex
@@ -585,6 +601,41 @@ func (r *mapRig) GetUserQuota() (*models.UserQuota, error) {
 }
 func (r *mapRig) GetServerProtocol() string                                 { return "tcp" }
 func (r *mapRig) SendTunnelCloseNotify(int64, string, string, string) error { return nil }
+
+// atRegistered: the handler of a connection has registered its tunnel with the tunnel manager and is about
+// to start it (seam: the tunnel manager's log line, written through the logger the driver installed).
+func (r *mapRig) atRegistered(args []interface{}) {
+	if r.free {
+		r.jitter()
+		r.jitter()
+		return
+	}
+	c := r.cur.Load()
+	if c == nil {
+		return
+	}
+	if len(args) >= 2 {
+		c.tunnelID.Store(fmt.Sprint(args[1]))
+	}
+	c.atReg.Store(true)
+	r.s.Alias(c.name)
+	r.s.Gate(regGate, nil)
+	c.regOnce.Do(func() { close(c.regLeft) })
+}
+
+// peerClose delivers a fatal tunnel error notification for the tunnel of connection p
+func (r *mapRig) peerClose(p int) bool {
+	c := r.conn(p)
+	if c == nil {
+		return false
+	}
+	id, _ := c.tunnelID.Load().(string)
+	if id == "" {
+		return false
+	}
+	r.h.GetTunnelManager().OnTunnelError(id, "pmap_verif", "TARGET_UNREACHABLE", "verif: target unreachable", false)
+	return true
+}
 
 func (r *mapRig) atHook() {
 	hookSeen.Add(1)
@@ -658,6 +709,14 @@ func (r *mapRig) request(p int) outcome {
 	}
 	select {
 	case <-c.done:
+		if c.atReg.Load() { // closed by a peer notification while its handler is parked before Tunnel.Start
+			select {
+			case <-c.regLeft:
+				time.Sleep(100 * time.Microsecond) // Start fails, the handler returns, its deferred release runs
+			case <-time.After(20 * time.Second):
+				return outcome{Err: "handler did not leave the registered gate"}
+			}
+		}
 	case <-c.reading: // relayed through its tunnel from now on
 	case <-time.After(20 * time.Second):
 		return outcome{Err: "handler did not finish"}
@@ -732,6 +791,14 @@ func (r *mapRig) probe() (int, int, bool) {
 		time.Sleep(500 * time.Microsecond) // the deferred decrement of a finished handler may lag its Close
 	}
 	got := len(held)
+	if got == want {
+		// ... and not one more: the occupants, these and a further connection would be inside PrepareConnection
+		// at the same time (a counter that ended up too low admits it)
+		if c, ok := r.feedHeld(300 * time.Millisecond); ok {
+			held = append(held, c)
+			r.tr.add(fw.Event{"ev": "Obs", "n": len(r.holders) + len(held), "why": "probe: connections held simultaneously"})
+		}
+	}
 	for _, c := range held {
 		close(c.hold)
 	}
@@ -771,7 +838,8 @@ func newQuotaRig(b *behaviour, s *sched.Sched) *quotaRig {
 	r.st = doubles.NewStore("sd", s)
 	if b.Cfg.K == "codequota" {
 		r.st.GateOn = func(op, key string) bool {
-			return (op == "GetList" && key == idxCodes) || (op == "Set" && strings.HasPrefix(key, pfxCode)) || (op == "AppendToList" && key == idxCodes)
+			return (op == "GetList" && key == idxCodes) || (op == "Set" && strings.HasPrefix(key, pfxCode)) || (op == "AppendToList" && key == idxCodes) ||
+				(op == "RemoveFromList" && key == idxCodes)
 		}
 	} else {
 		r.st.GateOn = func(op, key string) bool {
@@ -839,8 +907,10 @@ func tagOfPort(port int) string {
 func (r *quotaRig) preload(k int) error {
 	// a dangling index entry: counting prunes it, which is not a semantic change (DESIGN.md appendix B)
 	if r.b.Cfg.K == "codequota" {
-		if err := r.st.AppendToList(idxCodes, "conncode_gone"); err != nil {
-			return err
+		if r.b.Free { // (scheduled runs: pruning is a gated step of the list request, keep the index clean)
+			if err := r.st.AppendToList(idxCodes, "conncode_gone"); err != nil {
+				return err
+			}
 		}
 		for i := 1; i <= k; i++ {
 			if _, err := r.putCode(fmt.Sprintf("o%d", i), clientT); err != nil {
@@ -888,6 +958,10 @@ func (r *quotaRig) request(p int) outcome {
 	}
 	return outcome{Err: err.Error()}
 }
+
+// list = the read-only "list my codes" query; it prunes index entries whose record it does not find
+func (r *quotaRig) list() { r.svc[0].ListConnectionCodesByTargetClient(clientT) }
+
 func (r *quotaRig) release(p int)   {}
 func (r *quotaRig) rerelease(p int) {}
 
@@ -1134,12 +1208,19 @@ func gateBefore(kind, a string) string {
 	case "ctrlcap":
 		return closeGate
 	case "maplimit":
-		if a == "Release" || a == "GoLive" || a == "Detach" {
+		switch a {
+		case "Release", "Register":
 			return prepareGat
+		case "GoLive", "Detach", "StartFail":
+			return regGate
 		}
 		return hookPoint
 	default:
 		switch a {
+		case "LList":
+			return "sd.GetList"
+		case "LPrune":
+			return "sd.RemoveFromList"
 		case "Count":
 			return "sd.GetList"
 		case "Put":
@@ -1245,9 +1326,41 @@ func driveSched(env *fw.Env, b *behaviour) *fw.Trace {
 	}
 	released := map[int]bool{}
 	merged := map[int]bool{}
+	listerDone := false
 	for i, st := range b.Steps {
 		p, name := st.P, pname(st.P)
 		switch {
+		case st.A == "LCall": // the list request (not a racing admission): takes no quota mutex
+			qr := r.(*quotaRig)
+			if state := s.Start("L", func() any { qr.list(); return nil }); state != sched.Parked {
+				return unreal("step %d: list request is %s after its call", i, state)
+			}
+		case st.A == "LList" || st.A == "LPrune":
+			if listerDone {
+				continue // the real request found every record and returned earlier
+			}
+			state, at := s.State("L")
+			if state != sched.Parked || at.Point != gateBefore(kind, st.A) {
+				return unreal("step %d: list request is at %q (%s), model expects %s", i, at.Point, state, gateBefore(kind, st.A))
+			}
+			switch ns, _ := s.Step("L"); ns {
+			case sched.Done:
+				listerDone = true
+			case sched.Parked:
+			default:
+				return unreal("step %d: list request %s after %s", i, ns, st.A)
+			}
+		case st.A == "PeerClose":
+			if !started[p] || released[p] {
+				continue
+			}
+			if st2, at := s.State(name); st2 != sched.Parked || at.Point != regGate {
+				return unreal("step %d: %s is not between RegisterTunnel and Start (%s at %q)", i, name, st2, at.Point)
+			}
+			if !mr.peerClose(p) {
+				return unreal("step %d: tunnel of %s unknown", i, name)
+			}
+			released[p] = true
 		case st.A == firstStep[kind]:
 			if started[p] {
 				return &fw.Trace{Status: fw.DriverError, Note: "request started twice"}
@@ -1360,14 +1473,22 @@ func driveSched(env *fw.Env, b *behaviour) *fw.Trace {
 			if state != sched.Parked || at.Point != gateBefore(kind, st.A) {
 				return unreal("step %d: %s is at %q (%s), model expects %s before %s", i, name, at.Point, state, gateBefore(kind, st.A), st.A)
 			}
-			goLive := st.A == "GoLive" || st.A == "Detach"
-			if goLive {
-				mr.conn(p).goLive.Store(true)
+			goLive := st.A == "GoLive" || st.A == "Detach" || st.A == "Register"
+			if st.A == "Register" {
+				c := mr.conn(p)
+				c.goLive.Store(true)
+				mr.cur.Store(c)
 			}
 			ns, _ := s.Step(name)
+			if st.A == "Register" {
+				mr.cur.Store(nil)
+			}
 			switch ns {
 			case sched.Done:
 				finish(p)
+				if st.A == "StartFail" {
+					settle()
+				}
 				if goLive {
 					if c := mr.conn(p); c != nil {
 						select {
@@ -1475,6 +1596,47 @@ func driveFree(env *fw.Env, b *behaviour) *fw.Trace {
 			}
 		}
 	}()
+	stopSide := make(chan struct{})
+	sideDone := make(chan struct{})
+	go func() { // side traffic that is not an admission: list requests / peer notifications
+		defer close(sideDone)
+		qr, _ := r.(*quotaRig)
+		mr, _ := r.(*mapRig)
+		seen := map[string]bool{}
+		k := 0
+		for {
+			select {
+			case <-stopSide:
+				return
+			default:
+			}
+			k++
+			switch {
+			case qr != nil && kind == "codequota":
+				qr.list()
+			case mr != nil && b.Live:
+				for _, t := range mr.h.GetTunnelManager().ListTunnels() {
+					if id := t.GetID(); !seen[id] {
+						seen[id] = true
+						if (k+len(seen)+b.Seed)%2 == 0 {
+							mr.h.GetTunnelManager().OnTunnelError(id, "pmap_verif", "TARGET_UNREACHABLE", "verif", false)
+						}
+					}
+				}
+			default:
+				return
+			}
+			time.Sleep(10 * time.Microsecond)
+		}
+	}()
+	defer func() {
+		select {
+		case <-stopSide:
+		default:
+			close(stopSide)
+		}
+		<-sideDone
+	}()
 	var wg sync.WaitGroup
 	var bad atomic.Pointer[string]
 	gate := make(chan struct{})
@@ -1542,27 +1704,36 @@ func driveFree(env *fw.Env, b *behaviour) *fw.Trace {
 // ---- wiring ---------------------------------------------------------------------------------
 
 const (
-	allKinds    = `{"conncap", "ctrlcap", "tuncap", "maplimit", "codequota", "mapquota"}`
-	racyKinds   = `{"conncap", "maplimit", "codequota", "mapquota"}`
-	legacyKinds = `{"conncap", "ctrlcap", "maplimit", "codequota", "mapquota"}`
-	fixedAll    = `{"conncap", "maplimit", "maplive", "codequota", "mapquota"}`
-	quotaKinds  = `{"codequota", "mapquota"}`
+	allKinds = `{"conncap", "ctrlcap", "tuncap", "maplimit", "codequota", "mapquota"}`
+	allVars  = `{"none", "asis", "wrongkey", "ctrlsplit", "lockdrop", "indexfirst", "doublerelease"}`
+	legVars  = `{"asis", "wrongkey", "ctrlsplit", "lockdrop", "indexfirst", "doublerelease"}`
 )
 
 func job(name string, c map[string]string) fw.TLCJob {
-	d := map[string]string{"KINDS": allKinds, "NS": "{2, 3, 4}", "LIMS": "{0, 1, 2}", "NODES": "{1}", "KEYS": `{"owner"}`, "VARIANTS": "{}", "RR": "2", "SLACKS": "{1}", "FIXED": fixedAll,
-		"REL": "TRUE", "EMIT": "FALSE", "EMITALL": "FALSE", "VIEW": "VIEW view", "INVS": ""}
+	d := map[string]string{"KINDS": allKinds, "NS": "{2, 3, 4}", "LIMS": "{0, 1, 2}", "NODES": "{1}", "VARIANTS": `{"none"}`, "SHAPE": "free",
+		"RR": "2", "SLACKS": "{1, 2}", "LISTERS": "1", "REL": "TRUE", "EMIT": "FALSE", "EMITMAXN": "4", "EMITALL": "FALSE", "VIEW": "VIEW view", "INVS": ""}
 	for k, v := range c {
 		d[k] = v
 	}
 	return fw.TLCJob{Name: name, Module: "Limits", Cfg: "Limits.cfg", Workers: 8, Consts: d}
 }
 
-func lockdropNS(env *fw.Env) string {
-	if env.Tier == "thorough" {
-		return "{3, 4}"
+func genNS(env *fw.Env) string {
+	if env.Tier == "quick" {
+		return "{2, 3}"
 	}
-	return "{3}"
+	return "{2, 3, 4}"
+}
+
+// pick: deterministic sampling of generated behaviours inside Expand (per mille), seeded
+func pick(raw []byte, seed int64, perMille int) bool {
+	if perMille >= 1000 {
+		return true
+	}
+	h := fnv.New32a()
+	h.Write(raw)
+	fmt.Fprint(h, seed)
+	return int(h.Sum32()%1000) < perMille
 }
 
 func cloneTrace(t *fw.Trace, id int) *fw.Trace {
@@ -1578,8 +1749,20 @@ func cloneTrace(t *fw.Trace, id int) *fw.Trace {
 	return c
 }
 
+// seamLogger is the logger the driver installs: silent, except that the tunnel manager's line "registered
+// tunnel" - written between RegisterTunnel and Tunnel.Start of the mapping handler - is a seam.
+type seamLogger struct{ corelog.Logger }
+
+func (l seamLogger) Debugf(format string, args ...interface{}) {
+	if strings.Contains(format, "registered tunnel") {
+		if r := curMapRig.Load(); r != nil {
+			r.atRegistered(args)
+		}
+	}
+}
+
 func main() {
-	corelog.SetDefault(corelog.NewNopLogger())
+	corelog.SetDefault(seamLogger{corelog.NewNopLogger()})
 	verifhook.Set(func(name string, arg any) {
 		if name != hookPoint {
 			return
@@ -1591,36 +1774,29 @@ func main() {
 	fw.Main(&fw.Property{
 		ID:        "C17",
 		DesignRef: "DESIGN.md §5 C17",
-		ModelJobs: func(env *fw.Env) []fw.TLCJob {
-			return []fw.TLCJob{
-				// the repaired design, one service instance: strict
-				job("mc:fixed", map[string]string{"INVS": "NoOvershoot NoDeviation RefusedNoEffect CounterExact"}),
-				// the code as it was: every overshoot goes through a named deviation (insert on a stale check)
-				job("mc:asis", map[string]string{"FIXED": "{}", "INVS": "Safe RefusedNoEffect CounterExact"}),
-				// repaired quotas on two service instances, and with the mutex keyed on the code's issuer instead of the
-				// quota's owner: what the per-instance mutex leaves open / what the wrong key leaves open (named deviations)
-				job("mc:open", map[string]string{"KINDS": quotaKinds, "NODES": "{1, 2}", "KEYS": `{"owner", "issuer"}`, "INVS": "Safe RefusedNoEffect CounterExact"}),
-			}
-		},
 		GenJobs: func(env *fw.Env) []fw.TLCJob {
+			// (few TLC runs: on a loaded machine every JVM start costs more than the model checking itself)
+			maxN := "4"
+			if env.Tier == "quick" {
+				maxN = "3" // 4 racing requests: exhaustive check here, driven in the free-running races and the thorough tier
+			}
 			jobs := []fw.TLCJob{
-				job("gen", map[string]string{"NODES": "{1, 2}", "EMIT": "TRUE"}),
-				job("legacy", map[string]string{"KINDS": legacyKinds, "FIXED": "{}", "VARIANTS": `{"ctrlsplit"}`, "EMIT": "TRUE"}),
-				job("all:n2", map[string]string{"NS": "{2}", "NODES": "{1, 2}", "RR": "1", "EMITALL": "TRUE", "VIEW": "", "INVS": "EmitMaximal"}),
-				job("legacy-all:n2", map[string]string{"KINDS": racyKinds, "NS": "{2}", "FIXED": "{}", "RR": "1", "EMITALL": "TRUE", "VIEW": "", "INVS": "EmitMaximal"}),
-				// Register without the registry lock between evicting and inserting (needs a third request)
-				// mutexes created on demand and dropped from the table on unlock: needs a third request that arrives after
-				// the first one returned (arrival times are part of the schedule) and one free slot more
-				job("legacy-lockdrop", map[string]string{"KINDS": quotaKinds, "NS": lockdropNS(env), "LIMS": "{2}", "SLACKS": "{2}", "VARIANTS": `{"lockdrop"}`, "EMIT": "TRUE"}),
-				job("legacy-all:ctrlsplit", map[string]string{"KINDS": `{"ctrlcap"}`, "NS": "{3, 4}", "LIMS": "{1, 2}", "REL": "FALSE", "VARIANTS": `{"ctrlsplit"}`, "RR": "1", "EMITALL": "TRUE", "VIEW": "", "INVS": "EmitMaximal"}),
+				// one run over every modelled code, n in {2,3,4}, limit in {0,1,2}, slack in {1,2}, with list requests and
+				// removals of absent ids. Checked: the code as it is on one instance is strict (no overshoot, no deviation);
+				// the code before the repairs, several instances and the faulty variants overshoot only through a named
+				// deviation. Generated: one behaviour per transition - var = none: class "gen"; the others: class "legacy",
+				// schedules that must be unrealisable on the right tree.
+				job("legacy+gen+mc", map[string]string{"VARIANTS": allVars, "NODES": "{1, 2}", "EMIT": "TRUE", "EMITMAXN": maxN,
+					"INVS": "Strict Safe RefusedNoEffect CounterExact"}),
+				// every maximal behaviour of 2 requests at limit-1 and of 3 requests at limit-2 (var = none, asis), of 3 and 4
+				// registrations for ctrlsplit
+				job("legacy-all+all", map[string]string{"VARIANTS": `{"none", "asis", "ctrlsplit"}`, "NODES": "{1, 2}", "SHAPE": "pairs", "RR": "1", "LISTERS": "0", "EMITALL": "TRUE", "VIEW": "", "INVS": "EmitMaximal"}),
 			}
 			if env.Tier == "thorough" {
-				// the model of "mutex keyed on the issuer": on the right tree the second activation blocks (unrealisable)
-				jobs = append(jobs, job("legacy-wrongkey", map[string]string{"KINDS": `{"mapquota"}`, "KEYS": `{"issuer"}`, "EMIT": "TRUE"}))
 				jobs = append(jobs,
-					job("all:n3", map[string]string{"NS": "{3}", "NODES": "{1, 2}", "RR": "1", "EMITALL": "TRUE", "VIEW": "", "INVS": "EmitMaximal"}),
+					job("all:n3", map[string]string{"NS": "{3}", "NODES": "{1, 2}", "SLACKS": "{1}", "RR": "1", "LISTERS": "0", "EMITALL": "TRUE", "VIEW": "", "INVS": "EmitMaximal"}),
 					// (as-is quota behaviours block on the mutex of the repaired tree and are covered by "legacy"; here only the two caps)
-					job("legacy-all:n3", map[string]string{"KINDS": `{"conncap", "maplimit"}`, "NS": "{3}", "LIMS": "{1, 2}", "FIXED": "{}", "RR": "1", "EMITALL": "TRUE", "VIEW": "", "INVS": "EmitMaximal"}))
+					job("legacy-all:n3", map[string]string{"KINDS": `{"conncap", "maplimit"}`, "VARIANTS": `{"asis"}`, "NS": "{3}", "LIMS": "{1, 2}", "SLACKS": "{1}", "RR": "1", "LISTERS": "0", "EMITALL": "TRUE", "VIEW": "", "INVS": "EmitMaximal"}))
 			}
 			return jobs
 		},
@@ -1629,62 +1805,83 @@ func main() {
 			if err := json.Unmarshal(raw, &b); err != nil {
 				panic(err)
 			}
-			b.Legacy = strings.Contains(src, "legacy")
+			v := b.Cfg.Var
+			if v == "" {
+				v = "none"
+			}
+			b.Legacy = v != "none"
 			cls := "gen"
 			if b.Legacy {
 				cls = "legacy"
 			}
-			if src == "legacy-lockdrop" {
+			quick := env.Tier == "quick"
+			pm := 1000 // per mille of the generated behaviours of this class that are driven
+			switch v {
+			case "lockdrop", "indexfirst", "doublerelease":
 				if !b.Over {
-					return nil // keep the behaviours in which the variant exceeds the quota
+					return nil // of these variants keep the behaviours in which the limit is exceeded
 				}
 				statMu.Lock()
-				genOv["lockdrop"]++
+				genOv[v]++
 				statMu.Unlock()
-				return []json.RawMessage{fw.MustJSON(b)}
-			}
-			statMu.Lock()
-			if src != "legacy-wrongkey" {
+				switch {
+				case v == "lockdrop" && b.Cfg.N > 3:
+					pm = 10
+				case v == "doublerelease":
+					pm = 300
+				}
+				if !quick {
+					pm *= 4
+				}
+			default:
+				statMu.Lock()
 				genN[cls+":"+b.statKey()]++
 				if b.Over {
 					genOv[cls+":"+b.statKey()]++
 				}
+				statMu.Unlock()
+				trans := strings.Contains(src, "+mc") // transition coverage (sampled) vs maximal behaviours (mostly complete)
+				switch {
+				case src == "all:n3":
+					pm = 60
+				case src == "legacy-all:n3":
+					pm = 50
+				case trans && v == "none":
+					pm = 65
+				case trans && v == "asis":
+					pm = 30
+				case trans && v == "wrongkey":
+					pm = 100
+				case trans && v == "ctrlsplit":
+					pm = 500
+				case !trans && b.Cfg.K == "maplimit" && b.Cfg.N == 2 && v == "none":
+					pm = 400
+				case !trans && b.Cfg.K == "maplimit" && v == "asis":
+					pm = 300
+				}
+				if !quick && trans {
+					pm *= 5
+					if v == "asis" || v == "wrongkey" {
+						pm /= 4
+					}
+				}
+				if !quick && !trans && !strings.HasSuffix(src, ":n3") {
+					pm = 1000
+				}
 			}
-			statMu.Unlock()
+			if !pick(raw, env.Seed, pm) {
+				return nil
+			}
 			if b.Cfg.K == "maplimit" {
 				b.Via = "mapping"
 				out := []json.RawMessage{fw.MustJSON(b)}
-				if b.Cfg.Lim > 0 && len(b.Steps)%2 == 0 { // the same limit reached through the user quota
+				if !b.Legacy && b.Cfg.Lim > 0 && len(b.Steps)%2 == 0 { // the same limit reached through the user quota
 					b.Via = "userquota"
 					out = append(out, fw.MustJSON(b))
 				}
 				return out
 			}
 			return []json.RawMessage{fw.MustJSON(b)}
-		},
-		MaxBehSrc: func(env *fw.Env, src string) int {
-			if strings.Contains(src, "all") && (strings.HasSuffix(src, ":n2") || strings.HasSuffix(src, ":ctrlsplit")) {
-				return 0
-			}
-			if src == "legacy-lockdrop" {
-				if env.Tier == "quick" {
-					return 0
-				}
-				return 1500
-			}
-			if env.Tier == "quick" {
-				if src == "legacy" {
-					return 500
-				}
-				return 1200
-			}
-			if strings.Contains(src, "legacy") {
-				return 4000
-			}
-			if src == "gen" {
-				return 0
-			}
-			return 6000
 		},
 		ExtraBeh: func(env *fw.Env) []json.RawMessage {
 			reps := 6
@@ -1733,9 +1930,23 @@ func main() {
 				fmt.Printf("[c17]   %-24s driven=%d realised=%d model-overshoot=%d real-overshoot=%d model=real:%d\n", k, st.n, st.realised, st.modelOver, st.realOver, st.agree)
 			}
 			fmt.Printf("[c17]   hook point %s reached %d times\n", hookPoint, hookSeen.Load())
+			// the sources mix the code as it is ("gen") with schedules that must be unrealisable: the framework's
+			// realisability floor is applied here, to the class it is meant for
+			genAll, genReal := 0, 0
+			for k, st := range stats {
+				if strings.HasPrefix(k, "gen:") {
+					genAll += st.n
+					genReal += st.realised
+				}
+			}
+			if genAll >= 20 && genReal*2 < genAll {
+				return fmt.Errorf("the model no longer matches the code: only %d of %d behaviours of the model of the code as it is could be realised", genReal, genAll)
+			}
 			if len(genN) > 0 { // not a replay: the as-is model must still exhibit each race (vacuity guard)
-				if genOv["lockdrop"] == 0 {
-					return fmt.Errorf("the lockdrop variant of the model no longer exceeds the quota")
+				for _, v := range []string{"lockdrop", "indexfirst", "doublerelease"} {
+					if genOv[v] == 0 {
+						return fmt.Errorf("the %s variant of the model no longer exceeds the limit", v)
+					}
 				}
 				for _, k := range []string{"conncap", "ctrlcap", "maplimit", "maplive", "codequota", "mapquota", "mapquota:distinctTargets"} {
 					if genOv["legacy:"+k] == 0 {
